@@ -242,7 +242,12 @@ func (c *Cluster) SetTopology(f func(node int) []byte) { c.mu.Lock(); c.topoText
 // SetInfo sets what INFO reports on a node.
 func (c *Cluster) SetInfo(node int, loading bool, masterLinkUp bool, isSlave bool) {
 	var b strings.Builder
-	b.WriteString("# Server\r\nredis_version:3.0.7\r\n# Persistence\r\nloading:")
+	if node%2 == 1 {
+		// every second node answers in the style of Redis 7: more fields, among them async_loading
+		b.WriteString("# Server\r\nredis_version:7.0.11\r\nredis_mode:cluster\r\n# Persistence\r\nasync_loading:0\r\ncurrent_cow_peak:0\r\nloading:")
+	} else {
+		b.WriteString("# Server\r\nredis_version:3.0.7\r\n# Persistence\r\nloading:")
+	}
 	if loading {
 		b.WriteString("1")
 	} else {
